@@ -235,6 +235,10 @@ type Node struct {
 	Silent  bool
 	Faulty  bool // a store fault was injected: no longer compared with the model
 	WasReset bool // fast-forwarded at some point
+	Base     int  // index of Final[0] (anchor index + 1 after a fast-forward)
+	PendingFF bool // joiner waiting to fast-forward
+	FFTries  int
+	RoundDiverged bool // C13 known root cause observed on this reset node
 	Final   []*hg.Block // delivered blocks as stored after commit (pointers into store at delivery time)
 	FinalBody []string  // canonical body strings at delivery time
 }
@@ -282,6 +286,22 @@ func (w *World) NewBareNode(id int, genesis []int, store hg.Store) *Node {
 	}
 	fmt.Fprintf(w.Out, "\n")
 	return nd
+}
+
+// ResetKnown forgets the harness-side bookkeeping of inserted events after a fast-forward.
+func (nd *Node) ResetKnown() {
+	nd.known = map[int]int{}
+	nd.Inserted = map[int]bool{}
+	nd.fdLen = map[int]int{}
+}
+
+// BlockAt returns the delivered block with the given index, if this node delivered it.
+func (nd *Node) BlockAt(index int) (*hg.Block, string, bool) {
+	k := index - nd.Base
+	if k < 0 || k >= len(nd.Final) {
+		return nil, "", false
+	}
+	return nd.Final[k], nd.FinalBody[k], true
 }
 
 // NoteInserted records that ev was successfully inserted in this node.
@@ -481,7 +501,7 @@ func (nd *Node) AfterActionX(sigPoolRan bool, detect bool) {
 	newEvs := []*hg.Event{}
 	for id, last := range nd.Store.KnownEvents() {
 		p, ok := nd.Store.RepertoireByID()[id]
-		if !ok || !detect {
+		if !ok || !detect || nd.WasReset {
 			continue
 		}
 		o := w.Ord(p.PubKeyHex)
